@@ -475,14 +475,14 @@ Definition kind_of (n : Z) : kind :=
   else if n =? 5 then KNak else if n =? 6 then KRate else KNtsRate.
 
 (* (outcome, request length by the model's formula, request well-formed) *)
-Definition run (c : case) : outcome * Z * bool :=
+Definition run_tf (tf : bool) (c : case) : outcome * Z * bool :=
   match k_req c with
   | None => (OIgnore [(k_first c / 8) mod 8; 0; 1; 2], k_mlen c, true)
   | Some q =>
-      (if k_op c =? 0 then handle tree_tf (k_cfg c) (k_state c) q (k_recv c) (k_now c) (k_mlen c) (k_buf c)
+      (if k_op c =? 0 then handle tf (k_cfg c) (k_state c) q (k_recv c) (k_now c) (k_mlen c) (k_buf c)
        else
          let alg := match q_cookie q with Some a => a | None => 0 end in
-         match build tree_tf (kind_of (k_op c)) alg (k_state c) q (k_recv c) (k_now c) (k_mlen c) with
+         match build tf (kind_of (k_op c)) alg (k_state c) q (k_recv c) (k_now c) (k_mlen c) with
          | Ok a => match serialize a (k_buf c) with
                    | Ok w => ORespond [] w
                    | Err _ => OIgnore []
@@ -493,6 +493,8 @@ Definition run (c : case) : outcome * Z * bool :=
          end,
        request_len q, wf_request q)
   end.
+
+Definition run (c : case) : outcome * Z * bool := run_tf tree_tf c.
 
 Definition lZ_eqb (a b : list Z) : bool := if list_eq_dec Z.eq_dec a b then true else false.
 Definition wire_eqb (a b : wire) : bool :=
